@@ -278,6 +278,284 @@ def is_self_method(e, name):
     return isinstance(e, ast.Attribute) and attr_path(e) == "self." + name
 
 
+# ------------------------------------------------- share-holder proxy (C06.8 / C06.9)
+PROXY = "immutable.layout:WriteBucketProxy"
+PUTS = tuple(t for t in REMOTE_WRITES if t != "close")
+AGGREGATES = {"gatherResults", "DeferredList"}
+
+
+def _const_arg0(c):
+    return c.args[0].value if c.args and isinstance(c.args[0], ast.Constant) else None
+
+
+def _fires_on_errback(c):
+    k = kwarg(c, "fireOnOneErrback")
+    if k is None and len(c.args) > 2:
+        k = c.args[2]
+    return isinstance(k, ast.Constant) and k.value is True
+
+
+class ProxyFlow:
+    """Deferred bookkeeping inside the share-holder proxy class.
+
+    A *remote effect* is a call of callRemote(..), of a self.<method> that (transitively) performs one, or of
+    a local function that does.  A *unit* is a method, a nested def or a lambda.  `deliver` decides that the
+    Deferred of an expression becomes (part of) the value its unit returns, with no failure handler that
+    replaces the failure on the way."""
+
+    def __init__(self, idx, ci, r):
+        self.idx = idx
+        self.ci = ci
+        self.r = r
+        self.names = {}
+        for c in ci.mro():
+            for nm in c.methods:
+                self.names.setdefault(nm, ci.lookup(nm))
+        self.eff = set()
+        changed = True
+        while changed:
+            changed = False
+            for nm, m in self.names.items():
+                if nm not in self.eff and any(self._effect_call(x, ()) for x in ast.walk(m.node)):
+                    self.eff.add(nm)
+                    changed = True
+        self._pm = {}
+        self._aw = {}
+
+    # -- classification
+    def _self_callee(self, c):
+        nm = call_name(c) if isinstance(c, ast.Call) else None
+        if nm and nm.startswith("self.") and nm.count(".") == 1:
+            return nm[5:]
+        return None
+
+    def _effect_call(self, c, local):
+        if not isinstance(c, ast.Call):
+            return False
+        if call_tail(c) == "callRemote":
+            return True
+        if self._self_callee(c) in self.eff:
+            return True
+        return isinstance(c.func, ast.Name) and c.func.id in local
+
+    def scope(self, roots):
+        """Methods reachable from the interface methods through effectful self-calls."""
+        out, work = {}, []
+        for nm in roots:
+            m = self.ci.lookup(nm)
+            if m is None:
+                raise AnchorVanished("%s has no method %s" % (self.ci.qual, nm))
+            work.append(m)
+        while work:
+            m = work.pop()
+            if m.qual in out:
+                continue
+            out[m.qual] = m
+            for x in ast.walk(m.node):
+                nm = self._self_callee(x)
+                if nm in self.eff:
+                    work.append(self.names[nm])
+        return list(out.values())
+
+    def local_effectful(self, fi):
+        """Names of nested defs of fi (and of its enclosing units) whose body performs a remote effect."""
+        out = set()
+        f = fi
+        while f is not None:
+            for nm, sub in f.nested.items():
+                if isinstance(sub.node, ast.Lambda):
+                    continue
+                if any(self._effect_call(x, ()) for x in ast.walk(sub.node)):
+                    out.add(nm)
+            f = f.parent
+        return out
+
+    def pm(self, fi):
+        if fi.qual not in self._pm:
+            self._pm[fi.qual] = parent_map(fi)
+        return self._pm[fi.qual]
+
+    def effects(self, fi):
+        """Remote-effect calls evaluated by the unit itself (not by its lambdas / nested defs)."""
+        local = self.local_effectful(fi)
+        return [x for x in func_own_nodes(fi) if self._effect_call(x, local)]
+
+    def child_units(self, fi):
+        """(sub unit, defining node) for lambdas / nested defs of fi that contain a remote effect."""
+        out = []
+        for x in func_own_nodes(fi):
+            if isinstance(x, ast.Lambda):
+                if any(self._effect_call(y, self.local_effectful(fi)) for y in ast.walk(x.body)):
+                    out.append((self.idx.lambda_func(fi, x), x))
+            elif isinstance(x, (ast.FunctionDef, ast.AsyncFunctionDef)):
+                sub = fi.nested.get(x.name)
+                if sub is not None and any(self._effect_call(y, self.local_effectful(sub)) for y in ast.walk(x)):
+                    out.append((sub, x))
+        return out
+
+    def attachments(self, fi, sub, node):
+        """Registration calls of fi that attach the child unit: [(kind, position, regcall)]."""
+        out = []
+        for x in func_own_nodes(fi):
+            if isinstance(x, ast.Call) and isinstance(x.func, ast.Attribute) and x.func.attr in REGS:
+                for i, a in enumerate(x.args[:2]):
+                    if a is node or (isinstance(a, ast.Name) and not isinstance(node, ast.Lambda) and a.id == node.name):
+                        out.append((REGS[x.func.attr], i, x))
+        return out
+
+    def node_of(self, fi, e):
+        for n in fi.cfg().nodes:
+            if n.kind in ("entry", "exit", "raise"):
+                continue
+            for ex in node_exprs(n):
+                if any(y is e for y in own_nodes(ex)):
+                    return n
+        raise AnalysisError("no CFG node evaluates %s in %s" % (src(fi, e), short(fi)))
+
+    # -- failure handlers
+    def passes_failure_on(self, fi, tgt):
+        """The errback re-delivers the failure it was given (every return value derives from its parameter)."""
+        h = None
+        if isinstance(tgt, ast.Lambda):
+            h = self.idx.lambda_func(fi, tgt)
+        elif isinstance(tgt, ast.Name):
+            f = fi
+            while f is not None and h is None:
+                h = f.nested.get(tgt.id)
+                f = f.parent
+        elif self.ci is not None and (attr_path(tgt) or "").startswith("self.") and attr_path(tgt).count(".") == 1:
+            h = self.ci.lookup(attr_path(tgt)[5:])
+        if h is None:
+            return False
+        ps = first_positional_params(h)
+        if not ps:
+            return False
+        rets = h.cfg().find(is_return)
+        if not rets or reaches_exit_avoiding(h.cfg(), is_return):
+            return False
+        return all(n.ast.value is not None and ps[0] in depends_on(h, n.ast.value) for n in rets)
+
+    def check_handlers(self, fi, regs, what):
+        for (kind, rc) in regs:
+            if kind == "cb":
+                continue
+            tgt = rc.args[1] if kind == "pair" and len(rc.args) > 1 else (rc.args[0] if kind != "pair" and rc.args else None)
+            if tgt is None:
+                continue
+            if not self.passes_failure_on(fi, tgt):
+                self.r.violation(fi, fi.loc(rc), "%s: the handler %s receives a failure of %s and replaces it: the "
+                                 "share holder's caller (Encoder) sees success, never removes the share holder, and "
+                                 "an incomplete share is counted as placed" % (short(fi), src(fi, rc), what))
+
+    # -- delivery
+    def deliver(self, fi, e, what):
+        pm = self.pm(fi)
+        chain, outer = chained_regs(pm, e)
+        self.check_handlers(fi, chain, what)
+        p = pm.get(id(outer))
+        if isinstance(p, ast.Return):
+            return
+        if isinstance(p, (ast.Await, ast.Yield)):
+            if any(isinstance(x, ast.Try) for x in func_own_nodes(fi)):
+                raise AnalysisError("%s: %s is awaited inside a function with try blocks (not modelled)" % (short(fi), what))
+            return
+        if isinstance(p, ast.Assign) and p.value is outer and len(p.targets) == 1 and isinstance(p.targets[0], ast.Name):
+            return self.var_flow(fi, p.targets[0].id, self.node_of(fi, outer), what)
+        if isinstance(p, ast.Expr):
+            base = outer
+            while isinstance(base, ast.Call) and isinstance(base.func, ast.Attribute) and base.func.attr in REGS:
+                base = base.func.value
+            if base is not e and isinstance(base, ast.Name):
+                # `v.addCallback(unit)` as a statement: v has to be delivered from here on
+                return self.var_flow(fi, base.id, self.node_of(fi, outer), what)
+            self.r.violation(fi, fi.loc(e), "%s: the Deferred of %s is dropped (statement value discarded): its "
+                             "failure never reaches the caller, so Encoder._remove_shareholder is not run and the "
+                             "incomplete share is counted as placed" % (short(fi), what))
+            return
+        # element of an aggregate that fails on the first failure
+        q = p
+        if isinstance(q, (ast.List, ast.Tuple)):
+            q = pm.get(id(q))
+        if isinstance(q, ast.Call) and call_tail(q) in AGGREGATES and q.func is not outer:
+            if call_tail(q) == "DeferredList" and not _fires_on_errback(q):
+                self.r.violation(fi, fi.loc(q), "%s: %s is gathered by a DeferredList without fireOnOneErrback=True: "
+                                 "its failure becomes a (False, failure) list entry, i.e. a success" % (short(fi), what))
+                return
+            return self.deliver(fi, q, what)
+        raise AnalysisError("%s: the Deferred of %s is used in a context that is not modelled: %s" % (
+            short(fi), what, src(fi, p)))
+
+    def var_flow(self, fi, v, start, what):
+        cfg = fi.cfg()
+        self.check_handlers(fi, [(reg.kind, reg.call) for reg in registrations(fi, var=v)], what)
+        defs = def_exprs(fi)
+
+        def ret_v(n):
+            if not (is_return(n) and n.ast.value is not None):
+                return False
+            return v in depends_on(fi, n.ast.value, defs=defs)
+
+        def lost(n):
+            if n.kind == "exit":
+                return True
+            if n.kind == "stmt" and v in node_stores(n) and n is not start:
+                val = assign_value(n, v)
+                return val is None or v not in depends_on(fi, val, defs=defs)
+            return False
+        for w in must_pass(cfg, start, lambda l: l != "exc", ret_v, lost):
+            self.r.violation(fi, fi.loc(start.ast), "%s: the Deferred of %s (in %s) is not part of the value returned "
+                             "on some path: its failure never reaches the caller, so the share holder is kept and "
+                             "the incomplete share is counted as placed (path: %s)" % (short(fi), what, v, w.brief()), w)
+            return
+        for n in cfg.find(ret_v):
+            for c in calls_feeding(fi, n.ast.value):
+                if call_tail(c) == "DeferredList" and not _fires_on_errback(c):
+                    self.r.violation(fi, fi.loc(c), "%s: %s is returned through a DeferredList without "
+                                     "fireOnOneErrback=True: its failure becomes a success" % (short(fi), what))
+
+    def check_unit(self, fi, depth=0):
+        """Every remote effect of the unit is delivered to the unit's return value; every callback unit with a
+        remote effect is attached to a delivered Deferred (or called and delivered) and is checked itself."""
+        if depth > 6:
+            raise AnalysisError("callback nesting too deep in %s" % short(fi))
+        for c in self.effects(fi):
+            what = "%s(%s)" % (call_name(c) or call_tail(c), ", ".join(src(fi, a) for a in c.args[:1]))
+            self.r.site(fi, c, what)
+            self.deliver(fi, c, what)
+        for (sub, node) in self.child_units(fi):
+            att = self.attachments(fi, sub, node)
+            called = not isinstance(node, ast.Lambda) and any(
+                isinstance(x, ast.Call) and isinstance(x.func, ast.Name) and x.func.id == node.name
+                for x in func_own_nodes(fi))
+            if not att and not called:
+                self.r.violation(fi, fi.loc(node), "%s: the callback %s performs a remote call but is not attached to "
+                                 "a Deferred of this method: its outcome never reaches the caller" % (
+                                     short(fi), src(fi, node) if isinstance(node, ast.Lambda) else node.name))
+            for (kind, pos, rc) in att:
+                self.deliver(fi, rc, "the callback %s" % (src(fi, node) if isinstance(node, ast.Lambda) else node.name))
+            self.check_unit(sub, depth + 1)
+
+    # -- buffering
+    def always_writes(self, m, stack=()):
+        """Every normal path through method m issues a remote call (directly or through self-calls)."""
+        if m.qual in self._aw:
+            return self._aw[m.qual]
+        if m.qual in stack:
+            return False
+
+        def writes(n):
+            for c in node_calls(n):
+                if call_tail(c) == "callRemote":
+                    return True
+                nm = self._self_callee(c)
+                if nm in self.eff and self.always_writes(self.names[nm], stack + (m.qual,)):
+                    return True
+            return False
+        res = not reaches_exit_avoiding(m.cfg(), writes)
+        self._aw[m.qual] = res
+        return res
+
+
 # --------------------------------------------------------------------- rules
 def run(ctx: Context):
     idx = ctx.idx
